@@ -307,6 +307,8 @@ def _main(args, prop, cfg, tier, seed0, t0, scratch):
         cls = classes_of(res, crashed, err)
         want = (rf.get("violation") or {}).get("class")
         log("replay classes:", sorted(cls), "expected:", want)
+        for v in (res or {}).get("violations", []):
+            log("  violation:", v.get("class"), "-", (v.get("msg") or "")[:400])
         if res and res.get("log"):
             for line in res["log"][-200:]:
                 log("  ", line)
